@@ -1,8 +1,8 @@
 (* Property C06: normal-form transformations preserve the weighted language.
    Statements only.  Term-wise theorems (any commutative semiring, cyclic grammars included):
    bottom-up and top-down trimming, renaming, start separation; tree bijections for unfold,
-   separate_terminals and binarize; equation-level theorems for nullary and unary removal.
-   unarycycleremove and cnf as a whole are decided by the correspondence run only: their outputs
+   separate_terminals and binarize; equation-level theorems for nullary, unary and unary-cycle removal.
+   cnf as a whole is decided by the correspondence run only: its outputs
    are read back and evaluated by the reference semantics, which C02_reference_is_tree_sum proves
    to be the derivation sum. *)
 From Coq Require Import List Arith ZArith Permutation.
@@ -304,3 +304,36 @@ Proof.
   intros X HX; exact (ReachProofs.reachable_generating S G s X HX).
 Qed.
 Print Assumptions C06_trim_preserves.
+
+(* unarycycleremove (equation level; model proofs/UnaryCycleProofs.v of the construction: every nonterminal X on a
+   unary cycle keeps only the rules X -> bot(X2), weight K[X, X2], for the X2 of its strongly connected component of
+   the unary graph, and its other rules -- all but the unary rules inside the component -- move to the fresh copy
+   bot(X); K is the closure table of the component's unary weights, K = I + U K, which is what C15 proves Lehmann's
+   elimination returns): every solution of the transformed grammar solves the original grammar on the original
+   nonterminals, and a cyclic nonterminal only has rules into bot copies (no unary cycle is left through it). *)
+From GV.proofs Require UnaryCycleProofs.
+Theorem C06_unarycycleremove_solutions : forall (S : SR) (scc : nat -> nat) (cyc : nat -> bool) (bot : nat -> nat)
+    (K : nat -> nat -> S) (nts : list nat) (G : grammar S),
+  NoDup nts ->
+  (forall r, In r G -> In (rhead r) nts) ->
+  (forall r Y, In r G -> In (N Y) (rbody r) -> In Y nts) ->
+  (forall X Y, bot X = bot Y -> X = Y) ->
+  (forall X, ~ In (bot X) nts) ->
+  (forall r, In r G -> UnaryCycleProofs.intra S scc r = true ->
+     cyc (rhead r) = true /\ (forall Y, rbody r = [N Y] -> cyc Y = true)) ->
+  (forall X X2, In X nts -> In X2 nts -> cyc X = true -> cyc X2 = true -> scc X2 = scc X ->
+     K X X2 = sadd (if Nat.eqb X X2 then s1 else s0)
+                   (bsum nts (fun Y => if andb (cyc Y) (Nat.eqb (scc Y) (scc X))
+                                       then smul (UnaryCycleProofs.Uin S scc G X Y) (K Y X2) else s0))) ->
+  (forall f', FoldProofs.solves S (UnaryCycleProofs.ucr S scc cyc bot K nts G) f' ->
+     forall X xs, In X nts -> f' X xs = gstep S G f' X xs) /\
+  (forall r, In r (UnaryCycleProofs.ucr S scc cyc bot K nts G) -> In (rhead r) nts -> cyc (rhead r) = true ->
+     exists X2, rbody r = [N (bot X2)]).
+Proof.
+  intros S scc cyc bot K nts G Hnd Hh Hb Hinj Hfresh Hintra HK. split.
+  - intros f' Hf' X xs HX.
+    exact (UnaryCycleProofs.ucr_restrict S scc cyc bot K nts G Hnd Hh Hb Hinj Hfresh Hintra HK f' Hf' X xs HX).
+  - intros r Hr Hhd Hc.
+    exact (UnaryCycleProofs.ucr_no_intra_cycle_rules S scc cyc bot K nts G Hfresh r Hr Hhd Hc).
+Qed.
+Print Assumptions C06_unarycycleremove_solutions.
